@@ -112,6 +112,21 @@ func FixedBytes(name string, n int) []byte {
 	return b
 }
 
+// OpaqueBytes returns a byte slice of arbitrary length whose contents are irrelevant
+// (under the engine only its length can be used; natively it is allocated for real,
+// so harnesses add rt.Prefer(len <= small) to keep counterexamples replayable).
+func OpaqueBytes(name string) []byte {
+	v := next(name, "opaquelen")
+	if v.Bits > 1<<28 {
+		fmt.Printf("REPLAY-ERROR opaque length %d too large to allocate natively\n", v.Bits)
+		os.Exit(4)
+	}
+	return make([]byte, int(v.Bits))
+}
+
+// Prefer is a soft constraint used only when a model is extracted.
+func Prefer(c bool) {}
+
 // Assume constrains the inputs; natively a false assumption means the replay
 // vector is outside the harness domain (a machinery error, not a violation).
 func Assume(c bool) {
